@@ -374,6 +374,13 @@ func (s *genSt) interest() {
 		s.g.Stat("i-hint")
 	}
 	f := s.face()
+	if r.Chance(1, 30) {
+		// the same Interest with a second complete packet (Data /localhost/smuggled) behind it in ONE frame
+		// (decoded by a real link service only: "skip" in histories without one)
+		s.g.Op("IT %d %s %d %d %s %s %s %s %s %s", f, common.NameText(n), b2i(cbp), b2i(mbf), nonce, hop, life, s.tokHex(), nh, fh)
+		s.g.Stat("op-IT")
+		return
+	}
 	s.g.Op("I %d %s %d %d %s %s %s %s %s %s", f, common.NameText(n), b2i(cbp), b2i(mbf), nonce, hop, life, s.tokHex(), nh, fh)
 	s.g.Stat("op-I")
 	if len(n) > 0 && string(n[0].Val) == "localhost" {
